@@ -8,7 +8,8 @@ C15 - a displayed value or expression means the same as the source expression.
   R15.6 control characters keep their value (shared with C10)
   R15.7 string arguments of Literal[...] are not unstringed, whatever the qualifier of Literal
   R15.10 regex display: every component the regex parser stores in a node is read by the serializer; a branch with siblings is delimited
-  R15.9 an explicit (lowered) precedence is only forced onto positions where the grammar takes any expression unparenthesised
+  R15.9 an explicit (lowered) precedence is only forced onto positions where the grammar takes any expression unparenthesised; where nothing was forced the
+        default is the highest precedence (or lowered under an identity test of the field)
   R15.8 the plain-text rendering of a parsed value collects the text leaf by leaf, never with document.astext()
 Does not decide: precedence values (astor's table is trusted), string/number spelling, line-length arithmetic.
 """
